@@ -32,8 +32,17 @@ def _inline_table(ctx, m):
         f = m.funcs.get(name)
         ctx.require(f is not None, "C30-X3", f"helper {name}")
         rets = [s for s in f.stmts() if isinstance(s, ast.Return)]
-        ctx.require(len(rets) == 1, "C30-X3", f"helper {name} has {len(rets)} returns")
-        out[name] = (f.params(), rets[0].value)
+        ctx.require(len(rets) >= 1 and isinstance(f.node.body[-1], ast.Return), "C30-X3", f"helper {name}: no final return")
+        main = f.node.body[-1]
+        out[name] = (f.params(), main.value)
+        # fast paths `if <param> == <const>: return E` must agree with the general closed form at that point
+        for st in f.node.body[:-1]:
+            if isinstance(st, ast.Expr) and isinstance(st.value, ast.Constant):
+                continue  # docstring
+            ok_form = isinstance(st, ast.If) and not st.orelse and len(st.body) == 1 and isinstance(st.body[0], ast.Return) and isinstance(st.test, ast.Compare) \
+                and len(st.test.ops) == 1 and isinstance(st.test.ops[0], ast.Eq) and isinstance(st.test.left, ast.Name) and st.test.left.id in f.params() and isinstance(st.test.comparators[0], ast.Constant)
+            ctx.require(ok_form, "C30-X3", f"helper {name}: statement `{norm(st)[:60]}` before the closed form")
+            out.setdefault("__fast__", []).append((f, st, st.test.left.id, st.test.comparators[0].value, st.body[0].value, main.value))
     return out
 
 
@@ -125,7 +134,13 @@ def check(ctx):
     R = "C30-X3"
     ctx.doc(R, "closed forms in canonical polynomial form with helpers inlined")
     inl = _inline_table(ctx, m)
+    fast = inl.pop("__fast__", [])
     N = Normaliser(inline=inl)
+    for f, st, param, val, e_fast, e_main in fast:
+        n_ = Normaliser(inline=inl)
+        pf, pm_ = n_.poly(e_fast).subs(param, val), n_.poly(e_main).subs(param, val)
+        ctx.check(pf == pm_, R, f, st, f"the fast path `{norm(st)[:70]}` returns `{pf!r}` where the closed form gives `{pm_!r}` at {param}={val}: the special case disagrees with route enumeration (e.g. it forgets the stride)",
+                  f"fast path for {param}={val} agrees with the closed form")
 
     def cmp_(fi, node, got_expr, want, what, env=None):
         n = Normaliser(env=env or {}, inline=inl)
@@ -184,6 +199,8 @@ VARIANTS = [
     {"kind": "F", "name": "mesh-unicast-traffic-n", "rule": "C30-X3", "edits": [(NW, "                max_traffic = (shape_repeats - 1) * volume", "                max_traffic = shape_repeats * volume")]},
     {"kind": "F", "name": "hops-per-transfer-2", "rule": "C30-X3", "edits": [(NW, "    HOPS_PER_TRANSFER = 1\n", "    HOPS_PER_TRANSFER = 2\n")]},
     {"kind": "F", "name": "fields-swapped-in-return", "rule": "C30-X2", "edits": [(NW, "        return PerLoopTransferCost(\n            total_cost=total_cost, max_hops=max_hops, max_traffic=max_traffic\n        )\n\n\n# Registry", "        return PerLoopTransferCost(\n            total_cost=total_cost, max_hops=max_traffic, max_traffic=max_hops\n        )\n\n\n# Registry")]},
+    {"kind": "F", "name": "pair-fast-path-forgets-stride", "rule": "C30-X3", "edits": [(NW, "    # Cost of unicast is the cost of delivering to each point in\n", "    if n_dsts == 2:\n        return n_dsts - 1\n    # Cost of unicast is the cost of delivering to each point in\n")]},
+    {"kind": "S", "name": "consistent-fast-path", "edits": [(NW, "    # Cost of unicast is the cost of delivering to each point in\n", "    if n_dsts == 2:\n        return stride\n    # Cost of unicast is the cost of delivering to each point in\n")]},
     {"kind": "S", "name": "commuted-multicast", "edits": [(NW, "    return (n_dsts - 1) * stride", "    return stride * (n_dsts - 1)")]},
     {"kind": "S", "name": "arithmetic-sum-rewritten", "edits": [(NW, "    return 0.5 * (n + 1) * n", "    return n * (n + 1) / 2")]},
 ]
